@@ -211,6 +211,18 @@ pub fn check_history(prop: &str, layout: &Layout, hist: &Vec<Event>, trace: bool
         if m.state.active_mappings.iter().any(|am| am.to.contains(x)) { fail("C05", format!("release of {:?} lifted {:?}, which a mapping remaining in effect outputs", k, x)); }
       } }
     }
+    // C05 in-effect clauses (layouts without absorbing)
+    if !has_abs && acted {
+      for mv in before.active_mappings.iter() {
+        if !m.state.active_mappings.contains(mv) { continue; }
+        for x in mv.to.iter() {
+          if !layout.mappings.iter().all(|lm| !lm.to.contains(x) || lm == mv) { continue; }
+          if !res.events.contains(&Released(*x)) { continue; }
+          if !is_action_mapping(mv) && !is_action_key(x) { fail("C05", format!("modifier {:?} of the modifier-remapping {:?}, which stays in effect, was lifted by {:?}", x, mv, e)); }
+          if mv.repeat == Repeat::Normal && mv.to.iter().all(|o| is_action_key(o)) && !norepeat_fired { fail("C05", format!("output {:?} of the normal-repeat mapping {:?}, which stays in effect, was lifted by {:?} although no no-repeat mapping fired", x, mv, e)); }
+        }
+      }
+    }
     // C08
     if press && acted {
       for (mk, trig) in absorbed_track.iter().filter(|_| c08_in_scope) {
@@ -319,4 +331,25 @@ pub fn replay(prop: &str, text: &str) -> i32 {
     Some((i, msg)) => { println!("REPRODUCED at step {}: {}", i, msg); 1 },
     None => { println!("NOT-REPRODUCED: the recorded input does not violate {} on this tree", prop); 0 }
   }
+}
+
+
+/// bounded validation of the ASSUMED contract of is_any_modifier (r == the list contains one of the 8 modifiers): every list of length <= 4 over 8 modifiers + 2 other keys
+pub fn anymod() -> i32 {
+  let mods = [KeyCode::LEFTSHIFT, KeyCode::RIGHTSHIFT, KeyCode::LEFTMETA, KeyCode::RIGHTMETA, KeyCode::LEFTCTRL, KeyCode::RIGHTCTRL, KeyCode::LEFTALT, KeyCode::RIGHTALT];
+  let mut alpha: Vec<KeyCode> = mods.to_vec(); alpha.push(KeyCode::A); alpha.push(KeyCode::KPJPCOMMA);
+  let mut n: u64 = 0; let mut fails: Vec<String> = Vec::new();
+  for len in 0..5usize {
+    let total = alpha.len().pow(len as u32);
+    for code in 0..total {
+      let mut c = code; let mut keys = Vec::new();
+      for _ in 0..len { keys.push(alpha[c % alpha.len()]); c /= alpha.len(); }
+      let want = keys.iter().filter(|k| mods.contains(k)).count() > 0;
+      let got = is_any_modifier(&keys);
+      n += 1;
+      if want != got && fails.len() < 3 { fails.push(format!("{{\"input\":\"{:?}\",\"what\":\"is_any_modifier returned {} for a list that {} a modifier\"}}", keys, got, if want { "contains" } else { "does not contain" })); }
+    }
+  }
+  println!("{{\"cases\":{},\"failures\":[{}]}}", n, fails.join(","));
+  if fails.is_empty() { 0 } else { 1 }
 }
